@@ -326,15 +326,10 @@ func (f *Interface) getOrHandshakeConsiderRouting(fwPacket *firewall.Packet, cac
 			f.l.Error("Gateway buckets not calculated, fallback from ECMP to random routing. Please report this bug.")
 		}
 
-		var handshakeInfoForChosenGateway *HandshakeHostInfo
-		var hhReceiver = func(hh *HandshakeHostInfo) {
-			handshakeInfoForChosenGateway = hh
-		}
-
-		// Store the handshakeHostInfo for later.
+		// Do not cache the packet yet.
 		// If this node is not reachable we will attempt other nodes, if none are reachable we will
 		// cache the packet for this gateway.
-		if hostinfo, ready = f.handshakeManager.GetOrHandshake(gatewayAddr, hhReceiver); ready {
+		if hostinfo, ready = f.handshakeManager.GetOrHandshake(gatewayAddr, nil); ready {
 			return hostinfo, true
 		}
 
@@ -364,9 +359,10 @@ func (f *Interface) getOrHandshakeConsiderRouting(fwPacket *firewall.Packet, cac
 			}
 		}
 
-		// No gateways reachable, cache the packet in the originally chosen gateway
-		cacheCallback(handshakeInfoForChosenGateway)
-		return hostinfo, false
+		// No gateways reachable, cache the packet in the originally chosen gateway.
+		// This has to go through the handshake manager again, the pending handshake can only be touched under its lock
+		// and may have completed or been replaced in the meantime.
+		return f.handshakeManager.GetOrHandshake(gatewayAddr, cacheCallback)
 	}
 
 }
